@@ -52,6 +52,13 @@ CHECKS = {
              "returned value/view, cursor position, buffer bytes compared; calls the property lists as illegal must reach the assertion handler.",
         note="Scope: view catalogue x seeded shapes; cursor positions = required position, +1, member start/end, level start/end, unset. Cursor ranges over groups are exercised by C19 (visit_children uses cursor_range) when built.",
         design="5/C04, Appendix A"),
+    "C19": dict(
+        category="model_checking",
+        technique="TLC model checking of Visit.tla (operational cursor walk = denotational member order; lands at message end) + replay of every stop point with a real recursive visitor on generated classes",
+        text="For every explored (schema, message, shape incl. inflated block lengths) and every stop point k, the expected callback log prefix (kind, tag key, value/view, entry index, cursor position at the callback) is emitted by TLC and replayed with a recursive visitor built on visit_children; "
+             "tag identity is observed through one specialisation per generated tag; complete visits must leave the cursor at the message end.",
+        note="Cursor position at on_entry for entries without cursor-accessible members is admitted at both block start and block end (undocumented). Enum/set visiting is covered by C15 (sets) and the composite-member events here; get_by_tag/set_by_tag on sets by C15.",
+        design="5/C19"),
     "C12": dict(
         category="model_checking",
         technique="TLC model checking of GroupIter.tla (iterator/container laws, digit arithmetic for type-boundary headers) + replay of every expression chain x 16 dimension type pairs + trace validation of random iterator walks (GroupIterTrace.tla)",
